@@ -26,8 +26,6 @@ def PfsLevels (pfs : Array PFS.PrefetchSupport) : Nat → Nat → List Nat → P
     (∃ p, pfs[level]? = some p ∧ PfsRep (s.map (dig (2 * f))) p) ∧
       PfsLevels pfs (level + 1) f (stablePart (dig (2 * f)) 4 s)
 
-theorem pfsSampleShift_eq : Extracted.pfsSampleShift = 11 := rfl
-
 /-- the satisfiable form of `PfsTotal`: totality on the vectors that satisfy the C13 invariant -/
 def PfsTotal' (c : Cfg) : Prop :=
   c.pfs = true → ∀ qv, QV.Inv qv → QV.len qv < 2 ^ 43 →
@@ -87,7 +85,7 @@ theorem levelStep_ok' (c : Cfg) (hLaw : LevelLaw c.dbg c.B) (st : LevelSt)
       rw [← habs']; exact hrep
     refine ⟨r, st.pfs.push pp, ?_, hR, (fun h => by rw [h] at hp; cases hp),
       fun _ => ⟨pp, rfl, hrep'⟩⟩
-    simp only [levelStep, withCapacity_ok _ hlen, hfold, hp, pfsSampleShift_eq, hpp, hfrom, hpart,
+    simp only [levelStep, withCapacity_ok _ hlen, hfold, hp, hpp, hfrom, hpart,
       ok_bind, if_true, pure_eq_ok]
   · refine ⟨r, st.pfs, ?_, hR, fun _ => rfl, fun h => absurd h hp⟩
     simp only [levelStep, withCapacity_ok _ hlen, hfold, hp, hfrom, hpart, ok_bind, if_false,
@@ -198,7 +196,7 @@ theorem new_wmp (c : Cfg) (hW : 0 < c.W) (S : List Nat) (hS : ∀ x ∈ S, x < 2
 theorem approx_off_le (key : Nat → Nat) (d p : Nat) (s : List Nat) :
     approxSpec (s.map key) d p + Spec.occsSmaller id d (s.map key) ≤ s.length := by
   have h1 := approxSpec_le_rank (s.map key) d p
-  have h2 := off_add_rank_le key d (covered (s.map key).length (p / 2048 + 1)) s
+  have h2 := off_add_rank_le key d (covered (s.map key).length (p / rate + 1)) s
   omega
 
 theorem phase1_go_ok (c : Cfg) (t : QWT) (sym : Nat) (pfs : Array PFS.PrefetchSupport) :
@@ -217,9 +215,9 @@ theorem phase1_go_ok (c : Cfg) (t : QWT) (sym : Nat) (pfs : Array PFS.PrefetchSu
     obtain ⟨⟨r', hr', _⟩, _⟩ := hrest'
     have hd := dig_lt (2 * (f + 1)) sym
     have hlen : (S'.map (dig (2 * (f + 1)))).length = S'.length := List.length_map _
-    have hs_in : s / 2048 + 1 ≤ nbOf (S'.map (dig (2 * (f + 1)))).length := by
+    have hs_in : s / rate + 1 ≤ nbOf (S'.map (dig (2 * (f + 1)))).length := by
       rw [hlen]; exact block_in_range hpos (by omega)
-    have he_in : e / 2048 + 1 ≤ nbOf (S'.map (dig (2 * (f + 1)))).length := by
+    have he_in : e / rate + 1 ≤ nbOf (S'.map (dig (2 * (f + 1)))).length := by
       rw [hlen]; exact block_in_range hpos he
     rw [pfsPhase1.go]
     simp only [twoBits_ok c sym _ hW, idx_ok hr, hR.occsSmallerU _ _ (Nat.le_of_lt_succ hd),
